@@ -695,6 +695,8 @@ class VMF:
         After this is called, the entity will no longer be exported.
         The object still exists, so it can be reused.
         """
+        if item is self.spawn:
+            raise ValueError('The worldspawn entity cannot be removed!')
         try:
             self.entities.remove(item)
         except ValueError:
